@@ -99,7 +99,9 @@ TEXT = {
           "is an invariant of every history: heapify_up restores it from 'broken between one position and its parent' (siftUp_ok), "
           "heapify_down from 'broken between one position and its children' (siftDown_ok), so push, pop and remove keep it "
           "(C20_heap_push_ok, C20_heap_pop_ok, C20_heap_remove_ok), every heap reachable from the empty one is in heap order "
-          "(C20_heap_reachable_ok), and the element returned by peek / pop is at least every element of the array (C20_heap_peek_max). "
+          "(C20_heap_reachable_ok), and the element returned by peek / pop is at least every element of the array (C20_heap_peek_max); "
+          "altogether the heap refines the reference bag for every history and every answer agrees - pop returns a maximum of the bag, "
+          "remove reports the multiplicity (C20_heap_refines, C20_heap_answers). "
           "The table mirror refines the mathematical set for EVERY history of insertions and removals (C20_hset_refines): the probe-chain "
           "invariant (every stored element sits at an offset from its home slot with no empty slot on the way) is kept by insert, by "
           "the re-hash of the growth (insert_pc, extend_pc, insert_good) and by the backward shift of a removal (shiftBack_pc: loop "
